@@ -236,9 +236,10 @@ def addFreq [DecidableEq T] [Add W] (zero : W) (m : List (T × W)) (x : T) (w : 
   | (y, c) :: rest => if y = x then (y, c + w) :: rest else (y, c) :: addFreq zero rest x w
 
 /-- `axis_iter(Axis(0)).enumerate().filter(mask.get(i).unwrap_or(true)).map((i, x) => (x, weight_for(i)))`:
-the target rows that pass the mask, each with the weight of *its own* position -/
+the target rows whose *position* passes the mask, each with the weight of that position -/
 def maskedRows (one : W) (mask : List Bool) (ds : DS R T W) : List (List T × W) :=
-  ((ds.tgts.zipIdx).filter fun gi => mask.getD gi.2 true).map fun gi => (gi.1, weightFor one ds gi.2)
+  ((List.range ds.tgts.length).filter fun i => mask.getD i true).filterMap fun i =>
+    (ds.tgts[i]?).map fun g => (g, weightFor one ds i)
 
 /-- accumulation of `label_frequencies_with_mask` over rows already paired with a weight -/
 def accFreqs [DecidableEq T] [Add W] (zero : W) (rows : List (List T × W)) : List (T × W) :=
